@@ -1016,4 +1016,4 @@ var subReject = runlog.Register(&runlog.Sub[RCase]{
 	Journal: true,
 })
 
-func TestRejections(t *testing.T) { subReject.Check(t, 16000, 1000000) }
+func TestRejections(t *testing.T) { subReject.Check(t, 12000, 800000) }
